@@ -321,3 +321,39 @@ func LayeredCases(k int, seed int64) []EnumCase {
 	}
 	return out
 }
+
+// WideCases draws k wide DAGs: one root (Async or not), 9-14 middle nodes that
+// all need the root (a few also need a neighbour), and a sink that needs every
+// middle node: more goroutines in one injector than any other family has, most
+// of them parked on a value of the injector's own goroutine at first.
+func WideCases(k int, seed int64) []EnumCase {
+	r := rand.New(rand.NewSource(seed))
+	var out []EnumCase
+	for i := 0; i < k; i++ {
+		w := 9 + r.Intn(6)
+		n := w + 2
+		cons := make([][]int, n)
+		sink := n - 1
+		for j := 1; j <= w; j++ {
+			cons[0] = append(cons[0], j)
+			cons[j] = append(cons[j], sink)
+			if j < w && r.Intn(5) == 0 {
+				cons[j] = append([]int{j + 1}, cons[j]...)
+			}
+		}
+		mask := 0
+		for j := 1; j <= w; j++ {
+			if r.Intn(10) != 0 {
+				mask |= 1 << j
+			}
+		}
+		if i%2 == 1 {
+			mask |= 1 // Async root
+		}
+		if r.Intn(3) == 0 {
+			mask |= 1 << sink
+		}
+		out = append(out, EnumCase{N: n, Shape: -1000 - i, Mask: mask, Desc: r.Intn(2) == 0, Cons: cons})
+	}
+	return out
+}
